@@ -310,8 +310,10 @@ class Ctx:
     def finish(self) -> int:
         for key, n in sorted(self.known_seen.items()):
             print(f'KNOWN-FINDING: property={self.prop} {key} :: {self._known[key]} (seen {n}x)')
-        for v in self.violations:
+        for v in self.violations[:12]:
             print(f'VIOLATION property={self.prop} replay={v["replay"]}')
+        if len(self.violations) > 12:
+            print(f'... and {len(self.violations) - 12} more violation keys (all listed in the evidence file, replays under {REPLAYS})')
         write_evidence(self)
         return 1 if self.violations else 0
 
